@@ -77,13 +77,13 @@ Definition push_ok (s : scan_st) : bool :=
   (Nat.ltb 0 (List.length (cur s)) && Nat.ltb (nlead s) (List.length (cur s)))%bool.
 Definition scan_step (s : scan_st) (ch : N) : scan_st :=
   if ch =? 10 then
-    mkscan [] 0 true (if push_ok s then List.rev (cur s) :: pushed s else pushed s)
+    mkscan [] 0 true (if push_ok s then frev (cur s) :: pushed s else pushed s)
   else if (trimming s && is_ascii_ws ch)%bool then
     mkscan (ch :: cur s) (S (nlead s)) true (pushed s)
   else mkscan (ch :: cur s) (nlead s) false (pushed s).
 Definition scan_lines (b : str) : list str :=
   let s := fold_left scan_step b scan_init in
-  List.rev (if push_ok s then List.rev (cur s) :: pushed s else pushed s).
+  frev (if push_ok s then frev (cur s) :: pushed s else pushed s).
 
 Fixpoint mapM {E A B} (f : A -> res E B) (l : list A) : res E (list B) :=
   match l with
@@ -101,7 +101,7 @@ Fixpoint files_from (ign : bool) (l : list pentry) : list str :=
   | _ :: r => files_from ign r
   end.
 Definition files := files_from false.
-Definition with_slash (p : str) : str := match List.rev p with 47 :: _ => p | _ => p ++ [47] end.
+Definition with_slash (p : str) : str := match frev p with 47 :: _ => p | _ => p ++ [47] end.
 Fixpoint files_prefixed_from (ign : bool) (pfx : str) (l : list pentry) : list str :=
   match l with
   | [] => []
